@@ -104,6 +104,11 @@ func plainGen(t *rapid.T, max int) []byte {
 	return g.BytesLen(n).Draw(t, "plain")
 }
 
+// defined types satisfying the library's ~string | ~[]byte constraints: a caller's own string or byte-slice
+// type must behave exactly like the predeclared one (same key derivation, same wire format).
+type nstr string
+type nbytes []byte
+
 // disturb makes successful and failing calls with other plaintexts of other lengths: whatever an
 // earlier call returned must not change because of them (pooled or aliased buffers).
 func disturb(n int) {
@@ -207,6 +212,18 @@ func runCBC(c cbcCase, r *pb.Rec) error {
 	dec2, err := cryptz.Decrypt(msg, c.Secret)
 	if err != nil || !bytes.Equal(dec2, c.Plain) {
 		return fmt.Errorf("Decrypt(reference message) = %x, %v want %x", dec2, err, c.Plain)
+	}
+	// defined string/[]byte types for message and secret: same wire format (decoded by the reference with the
+	// plain secret) and cross-type round trips
+	if encN, e := cryptz.Encrypt(nbytes(c.Plain), nstr(c.Secret)); e != nil {
+		return fmt.Errorf("Encrypt with defined types: %v", e)
+	} else if rawN, e2 := base64.StdEncoding.DecodeString(string(encN)); e2 != nil {
+		return fmt.Errorf("Encrypt with defined types: output is not base64")
+	} else if pt, ok := refDecryptCBC(rawN, c.Secret); !ok || !bytes.Equal(pt, c.Plain) {
+		return fmt.Errorf("Encrypt(plaintext of a defined []byte type, secret of a defined string type): the independent decoder with the same secret bytes gets %x, ok=%v, want %x (was the secret ignored?)", pt, ok, c.Plain)
+	}
+	if dN, e := cryptz.Decrypt(nstr(enc), nbytes(c.Secret)); e != nil || !bytes.Equal(dN, c.Plain) {
+		return fmt.Errorf("Decrypt(message of a defined string type, secret of a defined []byte type) = %x, %v want %x", dN, e, c.Plain)
 	}
 	// results handed out earlier are the caller's: later calls must not change them
 	disturb(len(c.Plain))
@@ -411,6 +428,23 @@ func runGCM(c gcmCase, r *pb.Rec) error {
 		if e2 != nil || !bytes.Equal(dec2, c.Plain) {
 			return fmt.Errorf("GCMDecrypt(reference message) = %x, %v", dec2, e2)
 		}
+		// defined string/[]byte types for every argument
+		if encN, e := cryptz.GCMEncrypt(nstr(c.Plain), nbytes(c.Secret), nstr(c.AAD)); e != nil {
+			return fmt.Errorf("GCMEncrypt with defined types: %v", e)
+		} else if rawN, e2 := hex.DecodeString(string(encN)); e2 != nil || len(rawN) < 32 {
+			return fmt.Errorf("GCMEncrypt with defined types: output framing wrong")
+		} else {
+			aN, nonceN := refGCM(c.Secret, rawN[8:16])
+			if pt, e3 := aN.Open(nil, nonceN, rawN[16:], c.AAD); e3 != nil || !bytes.Equal(pt, c.Plain) {
+				return fmt.Errorf("GCMEncrypt with arguments of defined string/[]byte types: the independent decoder with the same secret and additional data fails: %v (were they ignored?)", e3)
+			}
+		}
+		if dN, e := cryptz.GCMDecrypt(nbytes(enc), nstr(c.Secret), nbytes(c.AAD)); e != nil || !bytes.Equal(dN, c.Plain) {
+			return fmt.Errorf("GCMDecrypt with arguments of defined types = %x, %v want %x", dN, e, c.Plain)
+		}
+		if _, e := cryptz.GCMDecrypt(nbytes(enc), nstr(string(c.Secret)+"x"), nbytes(c.AAD)); e == nil {
+			return fmt.Errorf("GCMDecrypt accepted another secret passed as a defined string type")
+		}
 		// results handed out earlier are the caller's: later calls (other plaintexts, rejected messages) must not change them
 		encKeep := string(enc)
 		disturb(len(c.Plain))
@@ -552,6 +586,9 @@ func genStream(t *rapid.T) streamCase {
 }
 
 func encStream(w io.Writer, rd io.Reader, secret []byte, str bool) error {
+	if str && len(secret)%2 == 1 {
+		return cryptz.EncryptStreamTo(w, rd, nstr(secret)) // a defined string type
+	}
 	if str {
 		return cryptz.EncryptStreamTo(w, rd, string(secret))
 	}
@@ -559,6 +596,9 @@ func encStream(w io.Writer, rd io.Reader, secret []byte, str bool) error {
 }
 
 func decStream(w io.Writer, rd io.Reader, secret []byte, str bool) error {
+	if !str && len(secret)%2 == 1 {
+		return cryptz.DecryptStreamTo(w, rd, nbytes(secret)) // a defined []byte type
+	}
 	if str {
 		return cryptz.DecryptStreamTo(w, rd, string(secret))
 	}
